@@ -202,6 +202,22 @@ def oracle(ctx):
     ref = tz.tzstr("EST5EDT,M4.1.0,M10.5.0")
     _, wps = Z.range_probes(ref, [1990, 2000, 2003, 2020])
     blackbox("tzical", "tzical:US-Eastern", ical, -18000, -14400, wps)
+    # tzical zones with finite rules / RDATE lists / several eras, queried on ONE object after a late
+    # query, in a shuffled order; pre-images from a fresh object per instant (history independence; seed C04G)
+    import datetime as _dt
+    for vname, text in Z.FINITE_VTZS:
+        shared = Z.load_vtz(text)
+        _dt.datetime(2020, 6, 1, 12, tzinfo=tz.UTC).astimezone(shared)
+        fresh0 = Z.load_vtz(text)
+        offs = sorted({int(c.tzoffsetto.total_seconds()) for c in fresh0._comps})
+        onsets = Z.vtz_onsets_utc(fresh0)
+        wps = sorted({t + o + d for t in onsets for o in offs for d in (-1, 0, 1, -1800, 1800)})
+        ctx.subrng("c05-vtz-" + vname).shuffle(wps)
+        for w in wps:
+            pre = sorted({t for t in (w - o for o in offs)
+                          if Z.ts((Z.EPOCH + Z.TD(seconds=t)).replace(tzinfo=tz.UTC).astimezone(Z.load_vtz(text))) == w})
+            classify(ctx, "tzical-finite", "tzical:" + vname, shared, w, pre,
+                     (max(offs) - min(offs)) if not pre else None, True, True)
     for s in Z.LOCAL_TZS:
         ref = tz.tzstr(s)
         std, dst = int(ref._std_offset.total_seconds()), int(ref._dst_offset.total_seconds())
